@@ -721,3 +721,54 @@ CASES += [
  dict(id='replace-var-skips-definitions', kind='fire', file=P, patch='../../seeded/C06-r6c/patch.diff', expect={'C06': 'XR'}, control=False),
  dict(id='eval-caches-definitions', kind='fire', file=P, patch='../../seeded/C13-r6c/patch.diff', expect={'C13': 'XR'}, control=False),
 ]
+
+CASES += [
+ # rules added after the round-7 seeds, each instantiated by the seed that showed the gap
+ dict(id='bench-presized-by-option', kind='fire', file=M, patch='../../seeded/C12-r7c/patch.diff', expect={'C12': 'capacity'}, control=False),
+ dict(id='eval-calls-var-is-free-on-iterates', kind='fire', file=P, patch='../../seeded/C12-r7a/patch.diff', expect={'C12': 'panic'}, control=False),
+ dict(id='dot-node-id-from-hash', kind='fire', file=IO, patch='../../seeded/C13-r7c/patch.diff', expect={'C13': 'node identity', 'C14': 'node identity'}, control=False),
+ dict(id='fp-stops-on-table-size', kind='fire', file=B, patch='../../seeded/C13-r7a/patch.diff', expect={'C13': 'FP'}, control=False),
+ dict(id='dot-export-before-model', kind='fire', file=M, patch='../../seeded/C14-r7a/patch.diff', expect={'C14': 'X4'}, control=False),
+ dict(id='fixed-point-shortcut-misses-lists', kind='fire', file=P, patch='../../seeded/C09-r7b/patch.diff', expect={'C09': 'violation'}, control=False),
+ dict(id='presized-by-length', kind='silent', file=M, old='let mut exec_times = Vec::new();', new='let mut exec_times = Vec::with_capacity(input_parsed.vars.len());', checks=['C12', 'C10'], control=False),
+]
+
+CASES += [
+ dict(id='tokenize-reads-line-by-line', kind='fire', file=P, patch='../../seeded/C08-r7c/patch.diff', expect={'C08': 'input text', 'C01': 'input text'}, control=False),
+ dict(id='single-name-ordering-dropped', kind='fire', file=P, patch='../../seeded/C11-r7c/patch.diff', expect={'C11': 'ordering flow'}, control=False),
+ dict(id='graph-writer-not-flushed', kind='fire', file=G, patch='../../seeded/C18-r7b/patch.diff', expect={'C18': 'not flushed'}, control=False),
+ dict(id='queens-writer-flush-result-dropped', kind='fire', file=Q, old='    writer.flush()?;', new='    let _ = writer.flush();', expect={'C15': 'not flushed'}, control=False),
+ dict(id='evaluator-shortcut-wrong-for-inverse-implication', kind='fire', file=P, patch='../../seeded/C02-r7c/patch.diff', expect={'C02': 'ImpliesInv'}, control=False),
+ dict(id='tokenize-io-read-to-string', kind='silent', file=P, old='        contents.read_to_string(&mut src)?;\n', new='        src = io::read_to_string(&mut *contents)?;\n', checks=['C08'], control=False),
+]
+
+# seventh round of behaviour-preserving patches, aimed at the places the rules of rounds 6 and 7 read (bn25 main() of the CLI, bn26 tokenizer
+# / ParsedFormula / the Reference arms, bn27 the Labeller impls and the generators' input/output plumbing): all 24 silent (DESIGN.md 15.5)
+_BN7 = {25: ['C07', 'C09', 'C10', 'C11', 'C12', 'C14', 'C20'], 26: ['C01', 'C02', 'C03', 'C06', 'C08', 'C09', 'C10', 'C11', 'C12', 'C13'], 27: ['C12', 'C13', 'C14', 'C15', 'C16', 'C17', 'C18']}
+_BN7_FILE = {25: M, 26: P, 27: IO}
+for _k, _checks in _BN7.items():
+    for _n in range(1, 9):
+        CASES.append(dict(id='bn%d-%02d' % (_k, _n), kind='silent', file=_BN7_FILE[_k], patch='bn%d-%02d.diff' % (_k, _n), checks=_checks, control=False))
+
+CASES += [
+ dict(id='bench-while-loop-guard-dropped', kind='fire', file=M, patch='bn25-03.diff', old='if args.benchmark.is_some() && repeat > 0 {', new='if args.benchmark.is_some() {', expect={'C12': 'violation'}, control=False),
+ dict(id='retain-match-wrong-arm', kind='fire', file=M, patch='bn25-04.diff', old='        TruthTableEntry::Any => {}\n        retained @ (TruthTableEntry::True | TruthTableEntry::False) => {', new='        TruthTableEntry::True => {}\n        retained @ (TruthTableEntry::Any | TruthTableEntry::False) => {', expect={'C20': 'retain'}, control=False),
+ dict(id='true-vars-string-line-shows-false', kind='fire', file=M, patch='bn25-07.diff', old='                } else {\n                    continue;\n                };', new='                } else {\n                    "!"\n                };', expect={'C10': 'names on the line'}, control=False),
+ dict(id='tokenize-fold-counter-not-above', kind='fire', file=P, patch='bn26-02.diff', old='                var.id + 1\n', new='                var.id\n', expect={'C11': 'X5'}, control=False),
+ dict(id='tokenize-unwrap-or-else-no-increment', kind='fire', file=P, patch='bn26-03.diff', old='                            var_id_counter += 1;\n', new='', expect={'C11': 'X5'}, control=False),
+ dict(id='free-vars-chain-inverted-filter', kind='fire', file=P, patch='bn26-06.diff', old='.filter(|(_, free)| **free)', new='.filter(|(_, free)| !**free)', expect={'C09': 'free_vars'}, control=False),
+ dict(id='extract-vars-selector-other-token', kind='fire', file=P, patch='bn26-07.diff', old='            .filter_map(SymbolicBDDToken::as_var)\n            .unique()', new='            .filter_map(SymbolicBDDToken::as_var)\n            .dedup()', expect={'C11': 'extract_vars'}, control=False),
+ dict(id='var-is-free-array-any-misses-condition', kind='fire', file=P, patch='bn26-08.diff', old='[a, b, c].into_iter().any(', new='[b, c].into_iter().any(', expect={'C09': 'violation'}, control=False),
+ dict(id='dot-walker-leaf-not-deduplicated', kind='fire', file=IO, patch='bn27-02.diff', old='''                self.collect_nodes(r, seen, ordered);
+            }''', new='''                self.collect_nodes(r, seen, ordered);
+                ordered.push(node.clone());
+            }''', expect={'C14': 'duplicates'}, control=False),
+ dict(id='parsetree-side-table-same-list', kind='fire', file=PIO, patch='bn27-03.diff', old='[("L", a), ("R", b)]', new='[("L", a), ("R", a)]', expect={'C14': 'X6'}, control=False),
+ dict(id='fixed-id-helper-bad-constant', kind='fire', file=IO, patch='bn27-01.diff', old='fixed_id("bdd_graph")', new='fixed_id("bdd graph")', expect={'C12': 'panic'}, control=False),
+ dict(id='sudoku-fs-read-first-line', kind='fire', file=U, patch='bn27-06.diff', old='fs::read_to_string(input)?', new='fs::read_to_string(input)?.lines().next().unwrap_or("").to_string()', expect={'C17': 'violation'}, control=False),
+ dict(id='graph-zip-args-swapped', kind='fire', file=G, patch='bn27-07.diff', old='generate_graph(vertices, edges, args.undirected)?', new='generate_graph(edges, vertices, args.undirected)?', expect={'C18': 'generate_graph'}, control=False),
+ # the two round-7 seeds of C15 and the defect they led to
+ dict(id='queens-small-board-shortcut', kind='fire', file=Q, patch='../../seeded/C15-r7a/patch.diff', expect={'C15': 'early return'}, control=False),
+ dict(id='queens-header-debug-args', kind='fire', file=Q, patch='../../seeded/C15-r7c/patch.diff', expect={'C15': 'remark'}, control=False),
+ dict(id='sudoku-header-echoes-raw-text', kind='fire', file=U, old='        puzzle_input.replace(\'"\', "\'")\n', new='        puzzle_input\n', expect={'C17': 'remark'}, control=False),
+]
